@@ -25,8 +25,8 @@ enum { TimerError_None = 0, TimerError_ServiceStopped, TimerError_InvalidTimeout
 uint64_t GID;
 typedef struct { uint64_t first; Record second; } RecPair;        typedef RecPair *RecIt;
 typedef struct { uint64_t first; PeriodicTimer second; } PerPair; typedef PerPair *PerIt;
-typedef struct { bool present; RecPair w; RecPair scratch; } iora_recmap;
-typedef struct { bool present; PerPair w; PerPair scratch; } iora_permap;
+typedef struct { bool present; RecPair w; RecPair scratch; bool cleared; } iora_recmap;   /* cleared: clear() was called and nothing emplaced since - EVERY key is absent */
+typedef struct { bool present; PerPair w; PerPair scratch; bool cleared; } iora_permap;
 size_t G_rec_erases, G_rec_emplaces, G_per_erases;
 RecPair nondet_RecPair(void); PerPair nondet_PerPair(void);
 static inline RecIt iora_recmap_end(iora_recmap *m) { (void)m; return NULL; }
@@ -39,7 +39,7 @@ static inline RecIt iora_recmap_find(iora_recmap *m, uint64_t k)
 {
   G_lr_key = k; G_lr_found = 0;
   if (k == GID) { if (m->present) { G_lr_found = 1; G_lr_tp = m->w.second.tp; } return m->present ? &m->w : NULL; }
-  if (nondet_bool()) return NULL;
+  if (m->cleared || nondet_bool()) return NULL;
   m->scratch = nondet_RecPair(); m->scratch.first = k;
   if (G_top_valid && k == G_top_id) IORA_ASSUME(m->scratch.second.tp == G_top_tp);          /* INV_HR for the key being collected */
   G_lr_found = 1; G_lr_tp = m->scratch.second.tp;
@@ -53,14 +53,16 @@ static inline void iora_recmap_erase(iora_recmap *m, RecIt it)
 }
 static inline void iora_recmap_emplace(iora_recmap *m, uint64_t k, Record r)
 {
-  G_rec_emplaces++;
+  G_rec_emplaces++; m->cleared = false;
   if (k == GID && !m->present) { m->present = true; m->w.first = k; m->w.second = r; }   /* emplace does nothing when the key exists */
 }
+static inline void iora_recmap_clear(iora_recmap *m) { m->present = false; m->cleared = true; }
+static inline void iora_permap_clear(iora_permap *m) { m->present = false; m->cleared = true; }
 static inline PerIt iora_permap_end(iora_permap *m) { (void)m; return NULL; }
 static inline PerIt iora_permap_find(iora_permap *m, uint64_t k)
 {
   if (k == GID) return m->present ? &m->w : NULL;
-  if (nondet_bool()) return NULL;
+  if (m->cleared || nondet_bool()) return NULL;
   m->scratch = nondet_PerPair(); m->scratch.first = k;
   IORA_ASSUME(m->scratch.second.interval > 0 && m->scratch.second.interval <= ((int64_t)1 << 61));   /* INV_P for the other keys (see post.c) */
   IORA_ASSUME(m->scratch.second.nextExecution >= -((int64_t)1 << 61) && m->scratch.second.nextExecution <= ((int64_t)1 << 61));
@@ -69,6 +71,7 @@ static inline PerIt iora_permap_find(iora_permap *m, uint64_t k)
 }
 static inline void iora_permap_emplace(iora_permap *m, uint64_t k, PeriodicTimer t)
 {
+  m->cleared = false;
   if (k == GID && !m->present) { m->present = true; m->w.first = k; m->w.second = t; }
 }
 static inline void iora_permap_erase(iora_permap *m, PerIt it)
@@ -94,6 +97,7 @@ static inline HeapItem *iora_heap_front(iora_heap *h) { IORA_ASSERT(h->n > 0, "f
 static inline HeapItem *iora_heap_back(iora_heap *h) { IORA_ASSERT(h->n > 0, "back() on non-empty vector"); return &h->a[h->n - 1]; }
 static inline void iora_heap_pop_back(iora_heap *h) { IORA_ASSERT(h->n > 0, "pop_back() on non-empty vector"); h->n--; }
 static inline void iora_heap_emplace_back(iora_heap *h, HeapItem x) { IORA_ASSERT(h->n < HEAP_CAP, "bounded stand-in: capacity 7"); h->a[h->n] = x; h->n++; }
+static inline void iora_heap_clear(iora_heap *h) { h->n = 0; }
 #elif defined(HEAP_SYMBOLIC)
 /* real storage of SYMBOLIC size (unbounded proofs of the heap ORDER with a ghost witness index GI) */
 typedef struct { HeapItem *a; size_t n; } iora_heap;
@@ -105,6 +109,7 @@ static inline HeapItem *iora_heap_front(iora_heap *h) { IORA_ASSERT(h->n > 0, "f
 static inline HeapItem *iora_heap_back(iora_heap *h) { IORA_ASSERT(h->n > 0, "back() on non-empty vector"); return &h->a[h->n - 1]; }
 static inline void iora_heap_pop_back(iora_heap *h) { IORA_ASSERT(h->n > 0, "pop_back() on non-empty vector"); h->n--; }
 static inline void iora_heap_emplace_back(iora_heap *h, HeapItem x) { IORA_ASSERT(h->n < G_heap_cap, "storage for one more item was provided by the harness"); h->a[h->n] = x; h->n++; }
+static inline void iora_heap_clear(iora_heap *h) { h->n = 0; }
 #else
 /* abstract heap for the step proofs (unbounded size): only the front element and the last pushed element are tracked;
  * heapPop/siftUp are REPLACED by recording contracts there, so no other element is ever read */
@@ -124,6 +129,7 @@ static inline void iora_heap_emplace_back(iora_heap *h, HeapItem x)
   if (h->n == 0 || x.tp < h->front.tp || (x.tp == h->front.tp && x.id < h->front.id)) h->front = x;
   h->n++;
 }
+static inline void iora_heap_clear(iora_heap *h) { h->n = 0; G_M = 0; }      /* no item, empty sum */
 static inline HeapItem *iora_heap_at(iora_heap *h, size_t i) { IORA_ASSERT(0, "abstract heap: element access only in HEAP_CONCRETE proofs"); (void)i; return &h->front; }
 static inline HeapItem *iora_heap_back(iora_heap *h) { IORA_ASSERT(0, "abstract heap: element access only in HEAP_CONCRETE proofs"); return &h->front; }
 static inline void iora_heap_pop_back(iora_heap *h) { IORA_ASSERT(0, "abstract heap: element access only in HEAP_CONCRETE proofs"); (void)h; }
@@ -135,7 +141,7 @@ typedef struct { bool joinable; } iora_thread;                     /* std::threa
 typedef struct { bool success; int newState; } iora_lcr;          /* common::LifecycleResult without message / stats */
 static inline iora_lcr iora_lcr_make(bool s, int st) { iora_lcr r; r.success = s; r.newState = st; return r; }
 typedef struct { iora_recmap _records; iora_permap _periodicTimers; iora_heap _heap; TimerServiceConfig _config; TimerStats _stats; bool _accepting; int _mutex;
-                 int _lifecycleState; bool _running; iora_thread _thread; } TimerService;
+                 int _lifecycleState; bool _running; iora_thread _thread; uint64_t _nextId; } TimerService;
 static inline bool iora_cas_bool(bool *x, bool *expected, bool v) { if ((*x != 0) == (*expected != 0)) { *x = v; return true; } *expected = *x; return false; }
 static inline bool iora_cas_int(int *x, int *expected, int v) { if (*x == *expected) { *x = v; return true; } *expected = *x; return false; }
 size_t G_ts_seq, G_ts_join_at, G_ts_cleanup_at, G_ts_drains; _Bool G_accepting_at_join; int G_drain_outcome;
